@@ -84,6 +84,7 @@ pub fn exec_op2(sim: &Sim, op: &Op, _in_cb: bool) {
         Op::SigSet(id, s) => crate::sig::sig_change(sim, *id, 2, s),
         Op::Raise(s) => crate::sig::raise(sim, *s, false),
         Op::Kill(s) => crate::sig::raise(sim, *s, true),
+        Op::SpawnChild => crate::sig::spawn_child(sim),
         Op::InsertTransient { id, child, from_default, script } => crate::transient::insert_transient(sim, *id, child, *from_default, script),
         Op::TrRemove(id) | Op::TrMap(id) | Op::TrReplace(id, _) => crate::transient::tr_op(sim, *id, op, _in_cb, false),
         Op::TrChildFail(id, w) => crate::transient::arm_child_failure(sim, *id, *w),
